@@ -458,3 +458,8 @@ def check(run, prog, tier):
     # ---------------------------------------------------------------- C01-c
     import rules.C01c as c01c
     c01c.check(run, prog, tier, funcs)
+
+    # ---- C01-i mapping internals held across LPC callbacks
+    import callgraph
+    import rules.C01i as c01i
+    c01i.check(run, prog, tier, callgraph.CallGraph(prog))
